@@ -89,6 +89,26 @@ func (e *c17Env) inner(w http.ResponseWriter, r *http.Request) {
 	})
 }
 
+// reference runs the plan's script free-running without the wrapper and returns the status.
+func (e *c17Env) reference(p *verifx.C17Plan) (int, error) {
+	id := fmt.Sprintf("r%d", atomic.AddInt64(&e.seq, 1))
+	e.sessions.Store(id, &c17Session{plan: p})
+	defer e.sessions.Delete(id)
+	req, err := http.NewRequest(p.Method, e.srv.URL+"/ref/"+id, nil)
+	if err != nil {
+		return 0, err
+	}
+	req.Header.Set("X-C17-Session", id)
+	p.SetRequest(req)
+	resp, err := e.client.Do(req)
+	if err != nil {
+		return 0, err
+	}
+	io.Copy(io.Discard, resp.Body)
+	resp.Body.Close()
+	return resp.StatusCode, nil
+}
+
 func (e *c17Env) request(s *c17Session, id string) c17Result {
 	req, err := http.NewRequest(s.plan.Method, e.srv.URL+"/"+id, nil)
 	if err != nil {
@@ -232,6 +252,10 @@ func TestVerifC17(t *testing.T) {
 				panic(http.ErrAbortHandler)
 			}
 		}()
+		if strings.HasPrefix(r.URL.Path, "/ref/") {
+			env.inner(w, r) // reference: the same scripted handler WITHOUT the gzip wrapper
+			return
+		}
 		under.ServeHTTP(w, r)
 	}))
 	env.srv.Config.ErrorLog = log.New(io.Discard, "", 0) // "superfluous WriteHeader" notes of net/http
@@ -243,7 +267,7 @@ func TestVerifC17(t *testing.T) {
 	big := verifx.EnvInt("VERIF_C17_BIG", 1) == 1
 	workers := verifx.EnvInt("VERIF_C17_WORKERS", 32)
 
-	var behs, handlers, gz, plain, two, nontrivial, bytesIn, bigChunks int64
+	var behs, handlers, gz, plain, two, nontrivial, bytesIn, bigChunks, refs int64
 	var sampleMu sync.Mutex
 	var samples []string
 	type job struct {
@@ -294,6 +318,19 @@ func TestVerifC17(t *testing.T) {
 						env.oracle("handler %d: request failed before a response arrived: %v (%s)", i+1, r.err, p.Describe())
 						continue
 					}
+					if p.NeedsReference() {
+						ref, err := env.reference(p)
+						if err != nil {
+							env.oracle("handler %d: reference run failed: %v (%s)", i+1, err, p.Describe())
+							continue
+						}
+						atomic.AddInt64(&refs, 1)
+						if ref != p.H.Status {
+							env.oracle("handler %d: net/http delivers status %d for the unwrapped script, the specification says %d (%s)", i+1, ref, p.H.Status, p.Describe())
+							continue
+						}
+						p.RefStatus = ref
+					}
 					faults, mode := p.Judge(r.status, r.hdr, r.raw, r.rerr)
 					if mode == "gzip" {
 						atomic.AddInt64(&gz, 1)
@@ -340,6 +377,6 @@ func TestVerifC17(t *testing.T) {
 		t.Fatal(err)
 	}
 	verifx.Summary(map[string]any{"behaviours": n, "ran": behs, "handlers": handlers, "gzip_mode": gz, "plain_mode": plain,
-		"two_handler_behaviours": two, "distinct_nontrivial": nontrivial, "inner_bytes": bytesIn, "chunks_64k_plus": bigChunks,
+		"two_handler_behaviours": two, "distinct_nontrivial": nontrivial, "inner_bytes": bytesIn, "chunks_64k_plus": bigChunks, "reference_runs": refs,
 		"plumbing": atomic.LoadInt64(&env.plumbing), "samples": samples})
 }
